@@ -499,3 +499,72 @@ theorem solve_solved_certificate_identity (cs : Consts K) (sqrtF : K → K) (s :
         Precond.unscaleSlackIneq, Precond.unscaleSlackLb, Precond.unscaleSlackUb, if_true]
 end identity
 end Piqp.C04
+
+namespace Piqp.C04
+section identityCaches
+open Piqp.C13 Piqp.C15
+variable {K : Type} [Field K] [LinearOrder K] [IsStrictOrderedRing K] [Inhabited K]
+variable {n p m : Nat}
+
+/-- identity preconditioner: the KKT caches agree with the stored data after `setup` -/
+theorem setup_caches_identity (cs : Consts K) (sqrtF : K → K) (poison : K) (hn : 0 < n) (be : Backend) (st : Settings K) (prevInfo : Info K)
+    (P : Mat K n n) (c : Vec K n) (AT : Mat K n p) (b : Vec K p) (GT : Mat K n m) (h : Option (Vec K m))
+    (xlb xub : Option (Vec K n)) :
+    let s := setupTyped cs sqrtF poison hn be .identity st prevInfo P c AT b GT h xlb xub
+    CachesOk s.be s.data s.kkt := by
+  unfold setupTyped
+  exact init_cachesOk _ _ _ _ _ _ _ _
+
+/-- … and after every `update` (every argument subset, either `reuse` value): the option mask covers what changed -/
+theorem update_caches_identity (cs : Consts K) (sqrtF : K → K) (sparse : Bool) (maskP : Array Bool)
+    (s : Solver K n p m) (hk : s.pk = .identity) (hc : CachesOk s.be s.data s.kkt)
+    (P : Option (Mat K n n)) (c : Option (Vec K n)) (A : Option (Mat K p n)) (b : Option (Vec K p))
+    (G : Option (Mat K m n)) (h : Option (Vec K m)) (xlb xub : Option (Vec K n)) (reuse : Bool) :
+    let s' := updateTyped cs sqrtF sparse maskP s P c A b G h xlb xub reuse
+    CachesOk s'.be s'.data s'.kkt := by
+  have hun : Precond.unscaleData s.pk s.data s.pre = s.data := by rw [hk]; rfl
+  unfold updateTyped
+  simp only [hk]
+  refine (updateData_ok s.be _ s.data s.kkt _ _ _ ⟨?_, ?_, ?_⟩ hc).1
+  · intro hf
+    have hP : P = none := by cases P <;> simp_all
+    subst hP
+    show (updateRaw cs sparse maskP s none c A b G h xlb xub).P = s.data.P
+    rw [updateRaw_P_none, hun]
+  · intro hf
+    have hA : A = none := by cases A <;> simp_all
+    subst hA
+    show (updateRaw cs sparse maskP s P c none b G h xlb xub).AT = s.data.AT
+    rw [updateRaw_AT_none, hun]
+  · intro hf
+    have hG : G = none := by cases G <;> simp_all
+    subst hG
+    show (updateRaw cs sparse maskP s P c A b none h xlb xub).GT = s.data.GT
+    rw [updateRaw_GT_none, hun]
+    cases h with
+    | none => rfl
+    | some hv =>
+      have hno : (List.finRange m).any (fun i => (infMask cs hv)[i]) = false := by simp_all
+      simp only
+      exact disableInf_noop cs _ hv hno
+
+/-- `solve()` keeps the caches in agreement with the data, for either preconditioner kind -/
+theorem solve_caches (cs : Consts K) (sqrtF : K → K) (s : Solver K n p m) (perm : Vector (Fin (n + p + m)) (n + p + m))
+    (hc : CachesOk s.be s.data s.kkt) :
+    CachesOk (solveTyped cs sqrtF s perm).1.be (solveTyped cs sqrtF s perm).1.data (solveTyped cs sqrtF s perm).1.kkt := by
+  have hil := initLoopG_invariant s.st cs (realOps (Solver.env cs sqrtF s perm)) (fun st : NumState K n p m => CachesOk s.be s.data st.2)
+    (realOps_preserve_caches (Solver.env cs sqrtF s perm)).rescale (realOps_preserve_caches (Solver.env cs sqrtF s perm)).factor
+    s.refineOn 0 ((solveStart cs sqrtF s perm).1, (solveStart cs sqrtF s perm).2.1) (solveStart cs sqrtF s perm).2.2
+    (solveStart_caches cs sqrtF s perm hc)
+  unfold solveTyped
+  split
+  · exact hc
+  · simp only
+    split
+    · exact hil
+    · have := C08.loopG_invariant s.st cs (realOps (Solver.env cs sqrtF s perm))
+        (fun st : NumState K n p m => CachesOk s.be s.data st.2) (realOps_preserve_caches (Solver.env cs sqrtF s perm))
+      unfold mainLoop
+      exact this _ _ _ (by rw [initialPoint_kkt]; exact hil)
+end identityCaches
+end Piqp.C04
